@@ -204,9 +204,10 @@ func (p *Program) Func(spec string) *ssa.Function {
 		if ptr {
 			t = types.NewPointer(t)
 		}
-		sel := p.SSA.MethodSets.MethodSet(t).Lookup(pkg.Pkg, name)
+		_ = t
+		// value receiver first (looking a value method up through the pointer method set yields a wrapper)
+		sel := p.SSA.MethodSets.MethodSet(tn.Type()).Lookup(pkg.Pkg, name)
 		if sel == nil {
-			// try pointer receiver as a fallback
 			sel = p.SSA.MethodSets.MethodSet(types.NewPointer(tn.Type())).Lookup(pkg.Pkg, name)
 			if sel == nil {
 				return nil
@@ -256,8 +257,13 @@ func FuncName(fn *ssa.Function) string {
 	if fn == nil {
 		return "<nil>"
 	}
-	s := fn.String()
-	return strings.ReplaceAll(s, modPath+"/", "")
+	s := strings.ReplaceAll(fn.String(), modPath+"/", "")
+	// receivers are rendered without the pointer star: whether an (unexported) method has a value or a pointer
+	// receiver is not part of any rule
+	if strings.HasPrefix(s, "(*") {
+		s = "(" + s[2:]
+	}
+	return s
 }
 
 // Decl returns the AST declaration for a types.Func of the module.
